@@ -1,5 +1,5 @@
 (* Correspondence driver for the DOM world (C04, C05). *)
-From AHP Require Export Model.Base Model.Str Model.Attr Model.Dom.
+From AHP Require Export Model.Base Model.Str Model.Attr Model.Dom Model.Search Model.Index Model.Nav.
 
 Definition opt2s (o : option nat) : string := match o with Some n => nat_to_string n | None => "-" end.
 Fixpoint snap (t : tag) : string :=
@@ -32,3 +32,19 @@ Definition run_dom (c : bool * list dtoken * list (string * bool) * list op) : s
   let '(po, ts, spares, ops) := c in
   let w := mk_world po ts spares in
   sjoin (String (ascii_of_nat 31) "") (wsnap w :: run_ops w ops).
+
+(* C04 also dumps the navigation properties of every element of the final world (document order, detached trees by uid) *)
+Definition show_nres (r : nres) : string :=
+  match r with NNone => "-" | NText s => "T" +++ hex s | NTag u => "E" +++ nat_to_string u | NExc => "!" end.
+Definition nav_of (w : world) (t : tag) : string :=
+  sjoin "," [nat_to_string (tuid t); show_nres (first_child t); show_nres (last_child t); show_nres (first_element_child t);
+             show_nres (last_element_child t); show_nres (next_sibling w t); show_nres (previous_sibling w t);
+             show_nres (next_element_sibling w t); show_nres (previous_element_sibling w t);
+             match peers w t with None => "-" | Some l => show_nats l end; nat_to_string (child_element_count t)].
+Definition world_elements (w : world) : list tag :=
+  match w with [] => [] | r :: d => flat_map all_nodes (r :: fold_right insert_sorted_t [] d) end.
+Definition run_dom_nav (c : bool * list dtoken * list (string * bool) * list op) : string :=
+  let '(po, ts, spares, ops) := c in
+  let w := mk_world po ts spares in
+  let wf := fold_left (fun w o => fst (step w o)) ops w in
+  run_dom c +++ String (ascii_of_nat 30) "" +++ sjoin ";" (map (nav_of wf) (world_elements wf)).
